@@ -9,7 +9,8 @@ ID = "C05"
 RULE = ("case = Brownian configuration (shape, Levy mode, cache_size in {0,1,2,5,45,None}, dt hint or inferred, tol, "
         "dyadic mode, wrapper, dtype, entropy) + generated query history (queries, forward/backward sweeps, zooms, "
         "rejected-trial triples, re-queries); every query is compared bit-for-bit (W, U, A) with the tensors returned "
-        "the first time, and at the end every distinct query is re-issued in a drawn order. Second case kind: "
+        "the first time, and at the end every distinct query is re-issued in a drawn order, then once more with a drawn subset "
+        "of the return flags (W alone / (W,U) / (W,A)), which must give the same tensors. Second case kind: "
         "sdeint_adjoint through a recording proxy - every backward query that coincides with a forward interval must "
         "return the forward tensors. Non-trivial = some repeat is separated from its first occurrence by more than "
         "cache_size other distinct queries or by a dependency-tree rebuild (history kind), or the backward pass "
@@ -91,6 +92,7 @@ def run_case(case):
     g = torch.Generator().manual_seed(case["perm"])
     perm = torch.randperm(len(order), generator=g).tolist()
     n0 = len(queries)
+    flag_checks = 0
     for pos, k in enumerate(perm):
         key = order[k]
         got = bm(*key)
@@ -102,6 +104,21 @@ def run_case(case):
                     f"repeat_differs:{name}",
                     f"final re-query of {key} (first seen at {i0}) returned a different {name}",
                     {"component": name, "levy": cfg["levy"], "wrapper": cfg["wrapper"]}))
+        # the same interval asked for with another combination of return flags (what the solvers actually do: srk asks
+        # for (W, U), log_ode for (W, A), the others for W alone) must return the very same tensors
+        if key[0] is not None and (meta["have_H"] or meta["have_A"]):
+            variants = [(False, False), (True, False)] + ([(False, True)] if meta["have_A"] else [])
+            ru, ra = variants[(case["perm"] + pos) % len(variants)]
+            out = meta["base"](key[0], key[1], return_U=ru, return_A=ra)
+            out = out if isinstance(out, tuple) else (out,)
+            want = [ref[0]] + ([ref[1]] if ru else []) + ([ref[2]] if ra else [])
+            flag_checks += 1
+            checks += 1
+            if len(out) != len(want) or not all(_eq(x, y) for x, y in zip(out, want)):
+                return Result(nontrivial=True, checks=checks, fail=Fail(
+                    "repeat_differs:flags",
+                    f"query {key} with return_U={ru}, return_A={ra} returned {len(out)} tensor(s) that are not the ones "
+                    f"returned with all flags on", {"component": "flags", "levy": cfg["levy"], "wrapper": cfg["wrapper"]}))
         if len(order) - 1 >= gap_needed:
             far_repeat = True
         if rebuild_marks and i0 < rebuild_marks[-1]:
@@ -119,6 +136,8 @@ def run_case(case):
         labels.append("repeat_after_eviction")
     if rebuild_repeat:
         labels.append("repeat_across_rebuild")
+    if flag_checks:
+        labels.append("return_flag_subsets_checked")
     return Result(nontrivial=(far_repeat or rebuild_repeat) and len(order) >= 3, labels=labels, checks=checks,
                   metrics={"queries_per_history": n0, "repeats_in_history": repeats})
 
